@@ -14,7 +14,22 @@ LEAN_MODULE = "Kio.Props.C06"
 THEOREMS = ["Kio.C06.prefix_underflow", "Kio.C06.shipped_coherent", "Kio.C06.float_exact"]
 
 
+class MinimalSource:
+    """only read(n); everything else is an AttributeError"""
+    __slots__ = ("_d", "_p")
+
+    def __init__(self, data):
+        self._d, self._p = data, 0
+
+    def read(self, n=-1):
+        out = self._d[self._p:] if n is None or n < 0 else self._d[self._p:self._p + n]
+        self._p += len(out)
+        return out
+
+
 def run(ctx):
+    from kio.serial import entity_reader
+
     rng = random.Random(ctx.seed)
     cl = codec.Classes()
     cl.check_driver()
@@ -35,6 +50,19 @@ def run(ctx):
             ks = sorted(set(range(0, 64)) | {rng.randrange(len(data)) for _ in range(100)} | set(range(len(data) - 64, len(data))))
         else:
             ks = range(len(data))
+        # the same from a source that offers nothing but read(n) (a socket-like object: no tell, no
+        # seek, no peek) — "connection closed" is where truncation really happens
+        for k in sorted({0, 1, len(data) // 2, len(data) - 1} & set(range(len(data)))):
+            try:
+                entity_reader(c)(MinimalSource(data[:k]))
+                r2 = "ok"
+            except Exception as e:  # noqa: BLE001
+                r2 = f"err {pyside.exc_class(e)} {type(e).__name__}"
+            cuts += 1
+            if r2 != "err underflow BufferUnderflow":
+                fails.append({"what": f"prefix of {k}/{len(data)} bytes read from a read()-only source does not raise "
+                                      f"BufferUnderflow", "class": cl.keys[i], "value": values.render(a)[:2000],
+                              "bytes": data[:k].hex(), "python": r2[:400]})
         for k in ks:
             r = codec.decode_real(c, data[:k])
             cuts += 1
